@@ -11,7 +11,7 @@ from concurrent.futures import ThreadPoolExecutor
 
 REPO = os.environ.get("VERIF_REPO", "/repo")
 VERIF = os.path.dirname(os.path.dirname(os.path.abspath(__file__)))
-BUILD = os.path.join(VERIF, "build")
+BUILD = os.environ.get("VERIF_BUILD", os.path.join(VERIF, "build"))
 JOBS = int(os.environ.get("VERIF_JOBS", "16"))
 
 SAN = ["-fsanitize=address,undefined", "-fno-sanitize-recover=undefined",
@@ -48,8 +48,17 @@ def repo_sources():
     return libs
 
 
-def tree_hash():
+def _hash_files(files):
     h = hashlib.sha256()
+    for f in sorted(files):
+        h.update(f.encode())
+        with open(f, "rb") as fp:
+            h.update(hashlib.sha256(fp.read()).digest())
+    return h.hexdigest()[:20]
+
+
+def tree_hash():
+    """(repo key, harness key): archives depend on the repo only"""
     files = []
     for root in ("mptcore", "mptio", "mptplot", "mpt++"):
         for dp, dn, fn in os.walk(os.path.join(REPO, root)):
@@ -59,16 +68,13 @@ def tree_hash():
     for f in (f"{REPO}/version.h", f"{REPO}/libinfo.h", f"{REPO}/mpt.py"):
         if os.path.exists(f):
             files.append(f)
+    files.append(os.path.abspath(__file__))
+    sim = []
     for dp, dn, fn in os.walk(os.path.join(VERIF, "sim")):
         for f in fn:
             if f.endswith((".c", ".h", ".cpp", ".hpp")):
-                files.append(os.path.join(dp, f))
-    files.append(os.path.abspath(__file__))
-    for f in sorted(files):
-        h.update(f.encode())
-        with open(f, "rb") as fp:
-            h.update(hashlib.sha256(fp.read()).digest())
-    return h.hexdigest()[:20]
+                sim.append(os.path.join(dp, f))
+    return _hash_files(files), _hash_files(sim)
 
 
 def run(cmd):
@@ -136,6 +142,7 @@ WRAPS = ["malloc", "calloc", "realloc", "free", "strdup",
 
 
 def build_world(bdir, world, archives, variant, log):
+    os.makedirs(bdir, exist_ok=True)
     exe = os.path.join(bdir, f"sim_{world}{variant}")
     if os.path.exists(exe):
         return exe
@@ -174,34 +181,35 @@ def build_world(bdir, world, archives, variant, log):
     return exe
 
 
-def prune(keep):
-    if not os.path.isdir(BUILD):
+def prune(parent, keep):
+    if not os.path.isdir(parent):
         return
-    for d in os.listdir(BUILD):
-        p = os.path.join(BUILD, d)
-        if d != keep and os.path.isdir(p) and not d.startswith("."):
+    for d in os.listdir(parent):
+        p = os.path.join(parent, d)
+        if d != keep and os.path.isdir(p) and not d.startswith((".", "mptsim_", "lib", "o_")) and len(d) == 20:
             shutil.rmtree(p, ignore_errors=True)
 
 
 def build(world, variants=("",), log=lambda s: print(s, file=sys.stderr)):
     """returns dict variant->exe path, or None on build failure"""
-    key = tree_hash()
-    bdir = os.path.join(BUILD, key)
-    os.makedirs(bdir, exist_ok=True)
-    # serialise concurrent builders of the same key
+    rkey, skey = tree_hash()
+    rdir = os.path.join(BUILD, rkey)
+    sdir = os.path.join(rdir, skey)
+    os.makedirs(rdir, exist_ok=True)
+    # serialise concurrent builders
     import fcntl
     lock = open(os.path.join(BUILD, ".lock"), "w")
     fcntl.flock(lock, fcntl.LOCK_EX)
     try:
-        prune(key)
-        os.makedirs(bdir, exist_ok=True)
+        prune(BUILD, rkey)
+        prune(rdir, skey)
         res = {}
         for v in variants:
             defs = ["-D_MPT_BUFFER_PSTD=16"] if v == "p16" else []
-            arch = build_archives(bdir, v, defs, log)
+            arch = build_archives(rdir, v, defs, log)
             if not arch:
                 return None
-            exe = build_world(bdir, world, arch, v, log)
+            exe = build_world(sdir, world, arch, v, log)
             if not exe:
                 return None
             res[v] = exe
